@@ -216,7 +216,7 @@ func (c *Check) goroutineRules(prop, rel string, fns []string) {
 				c.bad(prop+"-R1", key, p.relFile(g.Pos()), "goroutine is started before wg.Add")
 				continue
 			}
-			if !doneOnAllPaths(cl, wg) {
+			if !doneOnAllPaths(cl, wg, g) {
 				c.bad(prop+"-R1", key, p.relFile(g.Pos()), "goroutine body does not call wg.Done() on the barrier's WaitGroup on every path (deferred at entry, or before every return): wg.Wait would block forever or be released early")
 				continue
 			}
@@ -284,6 +284,7 @@ func (c *Check) goroutineRules(prop, rel string, fns []string) {
 			gInLoop := loopDepth(g.Block()) > 0
 			bad := ""
 			nw := 0
+			writtenParams := map[int]bool{}
 			for _, b := range cl.Blocks {
 				for _, ins := range b.Instrs {
 					st, ok := ins.(*ssa.Store)
@@ -294,6 +295,11 @@ func (c *Check) goroutineRules(prop, rel string, fns []string) {
 					switch bx := base.(type) {
 					case *ssa.Parameter:
 						nw++ // through its own argument; checked at the launch below
+						for i, q := range cl.Params {
+							if q == bx {
+								writtenParams[i] = true
+							}
+						}
 					case *ssa.FreeVar:
 						cell, owner := resolveCell(bx)
 						switch {
@@ -324,9 +330,9 @@ func (c *Check) goroutineRules(prop, rel string, fns []string) {
 			}
 			if gInLoop {
 				// a pointer argument must be &xs[i] with i the loop index
-				for _, a := range g.Call.Args {
-					if _, isPtr := a.Type().Underlying().(*types.Pointer); !isPtr {
-						continue
+				for i, a := range g.Call.Args {
+					if _, isPtr := a.Type().Underlying().(*types.Pointer); !isPtr || !writtenParams[i] {
+						continue // not a pointer, or one the body never writes through (e.g. the WaitGroup)
 					}
 					ia, ok := a.(*ssa.IndexAddr)
 					if !ok || !isForwardIndex(ia.Index) {
@@ -535,8 +541,8 @@ func closureName(g *ssa.Go) string {
 
 // doneOnAllPaths: wg.Done() on the parent's WaitGroup is deferred in the entry block, or
 // a direct call dominates every return of the body.
-func doneOnAllPaths(cl *ssa.Function, wg ssa.Value) bool {
-	if deferDoneFirst(cl, wg, nil) {
+func doneOnAllPaths(cl *ssa.Function, wg ssa.Value, g *ssa.Go) bool {
+	if deferDoneFirst(cl, wg, g) {
 		return true
 	}
 	target, _ := resolveCell(wg)
@@ -544,7 +550,7 @@ func doneOnAllPaths(cl *ssa.Function, wg ssa.Value) bool {
 	for _, b := range cl.Blocks {
 		for _, ins := range b.Instrs {
 			if call, ok := ins.(*ssa.Call); ok && call.Call.StaticCallee() != nil && call.Call.StaticCallee().String() == "(*sync.WaitGroup).Done" {
-				if a, _ := resolveCell(call.Call.Args[0]); a != nil && a == target {
+				if a := goBodyCell(call.Call.Args[0], cl, g); a != nil && a == target {
 					dones = append(dones, call)
 				}
 			}
@@ -573,7 +579,7 @@ func doneOnAllPaths(cl *ssa.Function, wg ssa.Value) bool {
 
 // deferDoneFirst: the first instruction with an effect in cl's entry block is
 // `defer wg.Done()` on the WaitGroup wg of parent f.
-func deferDoneFirst(cl *ssa.Function, wg ssa.Value, f *ssa.Function) bool {
+func deferDoneFirst(cl *ssa.Function, wg ssa.Value, g *ssa.Go) bool {
 	if len(cl.Blocks) == 0 {
 		return false
 	}
@@ -585,7 +591,7 @@ func deferDoneFirst(cl *ssa.Function, wg ssa.Value, f *ssa.Function) bool {
 				return false
 			}
 			// same WaitGroup: the captured variable resolves to the parent's wg
-			a, _ := resolveCell(x.Call.Args[0])
+			a := goBodyCell(x.Call.Args[0], cl, g)
 			b, _ := resolveCell(wg)
 			return a != nil && a == b
 		case *ssa.DebugRef:
@@ -1001,4 +1007,21 @@ func cycleAvoiding(b, avoid *ssa.BasicBlock) bool {
 		}
 	}
 	return false
+}
+
+// goBodyCell: the variable of the launching function that the value v, used in the body cl
+// of the goroutine started by g, refers to: a captured variable, or a pointer parameter
+// bound to &variable at the go statement.
+func goBodyCell(v ssa.Value, cl *ssa.Function, g *ssa.Go) *ssa.Alloc {
+	if par, ok := v.(*ssa.Parameter); ok && g != nil {
+		for i, q := range cl.Params {
+			if q == par && i < len(g.Call.Args) {
+				a, _ := resolveCell(g.Call.Args[i])
+				return a
+			}
+		}
+		return nil
+	}
+	a, _ := resolveCell(v)
+	return a
 }
